@@ -174,7 +174,7 @@ class Gen:
             self.simple(ind)
             return
         kinds = ["simple", "simple", "if", "if", "if", "for", "for", "while", "try", "try", "with", "match",
-                 "closure", "class", "gen", "comp", "ifexp", "compvars", "compvars", "compraise"]
+                 "closure", "class", "gen", "comp", "ifexp", "compvars", "compvars", "compraise", "importfrom"]
         kind = r.choice([k for k in kinds if self.allowed(k)] or ["simple"])
         self.used.add(kind)
         if kind == "simple":
@@ -333,6 +333,13 @@ class Gen:
             self.emit(ind + 1, f"{r.choice(INT_VARS)} = {self.atom()}")
             if r.random() < 0.4:
                 self.emit(ind, r.choice([f"{u} = 1", f"print({u})", f"del {u}"]))
+        elif kind == "importfrom":
+            self.emit(ind, "try:")
+            self.emit(ind + 1, r.choice(["from os import no_such_name", "from math import pi, no_such_name", "from json import decoder",
+                                         "from collections import abc as cabc", "import no_such_module_x", "from os.path import join, nope"]))
+            self.emit(ind + 1, f"{r.choice(INT_VARS)} = {self.atom()}")
+            self.emit(ind, f"except {r.choice(['ImportError', 'ImportError', 'Exception', 'ModuleNotFoundError', 'AttributeError'])}:")
+            self.emit(ind + 1, f"{r.choice(INT_VARS)} = {self.atom()}")
         elif kind == "ifexp":
             self.emit(ind, f"{r.choice(INT_VARS)} = {self.atom()} if {self.cond(1)} else {self.iexpr(1)}")
 
@@ -564,6 +571,26 @@ class EatStream(PeekStream):
         return False
 
 
+class DictAttr:
+    """Serves attributes from a dict; unknown names raise KeyError, not AttributeError."""
+
+    def __init__(self):
+        object.__setattr__(self, "_d", {"isalnum": lambda: True, "isdigit": lambda: False, "startswith": lambda p: True,
+                                        "endswith": lambda p: False, "attr": 3})
+
+    def __getattr__(self, n):
+        Adv.LOG.append("DictAttr.__getattr__:" + ("known" if n in self._d else "unknown"))
+        return self._d[n]
+
+    def __setattr__(self, n, v):
+        self._d[n] = v
+
+    def __eq__(self, other):
+        return self is other
+
+    __hash__ = object.__hash__
+
+
 class AttrObj:
     """Keeps attributes under another name; reading has effects the subject does not trigger by storing."""
 
@@ -598,7 +625,7 @@ def gen_input(rng) -> dict:
     if ln and r.random() < 0.12:   # objects with partial / raising comparison protocols as elements
         items[r.randrange(ln)] = {"adv": r.choice(["adv", "advfull"]), "mode": r.choice(["plain", "raise", "notimpl"]), "val": r.choice([0, 1, 2])}
     ok = r.choice(["none", "int", "adv", "adv", "advfull", "advfull", "str", "lstr", "nan", "list", "iter", "big", "tuple", "bytes", "set",
-                   "opstr", "opstr", "opstrsw", "opbytes", "peek", "peek", "attrobj", "complex", "big"])
+                   "opstr", "opstr", "opstrsw", "opbytes", "peek", "peek", "attrobj", "complex", "big", "dictattr", "dictattr"])
     o = {"k": ok}
     if ok in ("adv", "advfull"):
         o["mode"] = r.choice(["plain", "plain", "raise", "notimpl", "nonbool", "never"])
@@ -688,6 +715,8 @@ def materialise(spec: dict):
         iters.append(o)
     elif k == "attrobj":
         o = AttrObj()
+    elif k == "dictattr":
+        o = DictAttr()
     elif k == "complex":
         o = complex(1, 2)
     else:
